@@ -10,7 +10,7 @@ sys.path.insert(0, VERIF)
 from acsa import equiv
 from acsa.core import Repo
 
-Repo("/repo")  # sets nothing when the tree is the reference; set the purity tables explicitly
+Repo(os.environ.get("ACSA_REPO", "/repo"))  # sets nothing when the tree is the reference; set the purity tables explicitly
 refs = equiv.load_reference_sources()
 trees = {rel: ast.parse(src) for rel, src in refs.items()}
 repo_a, pure_a = equiv.pure_function_names(list(trees.values()))
@@ -86,8 +86,50 @@ def mutants(fn):
                     wb, rb = eff(b)
                     if (wa & rb or wa & wb) and not isinstance(a, (ast.FunctionDef, ast.ClassDef)) and not isinstance(b, (ast.FunctionDef, ast.ClassDef)):
                         cands.append(("swap", (i, fld, k)))
+    # move a statement across a loop header when the loop changes what the statement reads (or the
+    # statement is effectful): `t = f(a) ; for ..: a = g(t, a)`  <->  `for ..: t = f(a) ; a = g(t, a)`
+    moves = []
+    for i, n in enumerate(nodes):
+        for fld in ("body", "orelse"):
+            lst = getattr(n, fld, None)
+            if isinstance(lst, list) and len(lst) > 1 and isinstance(lst[0], ast.stmt):
+                for k in range(len(lst) - 1):
+                    a, b = lst[k], lst[k + 1]
+                    if isinstance(b, (ast.For, ast.While)) and isinstance(a, (ast.Assign, ast.Expr)):
+                        loop_w = {x.id for x in ast.walk(b) if isinstance(x, ast.Name) and isinstance(x.ctx, ast.Store)}
+                        a_r = {x.id for x in ast.walk(a) if isinstance(x, ast.Name) and isinstance(x.ctx, ast.Load)}
+                        if loop_w & a_r or any(isinstance(x, ast.Call) for x in ast.walk(a)):
+                            moves.append(("movein", (i, fld, k)))
+                    if isinstance(a, (ast.For, ast.While)) or isinstance(b, (ast.For, ast.While)):
+                        lp, kk = (b, k + 1) if isinstance(b, (ast.For, ast.While)) else (a, k)
+                        first = lp.body[0]
+                        if isinstance(first, ast.Assign) and len(lp.body) > 1:
+                            loop_w = {x.id for s_ in lp.body[1:] for x in ast.walk(s_) if isinstance(x, ast.Name) and isinstance(x.ctx, ast.Store)} | {x.id for x in ast.walk(lp.target) if isinstance(x, ast.Name)} if isinstance(lp, ast.For) else set()
+                            f_r = {x.id for x in ast.walk(first.value) if isinstance(x, ast.Name)}
+                            if loop_w & f_r:
+                                moves.append(("moveout", (i, fld, kk)))
+    cands += moves
     rnd.shuffle(cands)
     for kind, i in cands[:MAXN]:
+        if kind in ("movein", "moveout"):
+            m = copy.deepcopy(fn)
+            owner = list(ast.walk(m))[i[0]]
+            lst = getattr(owner, i[1])
+            if kind == "movein":
+                st_, lp = lst[i[2]], lst[i[2] + 1]
+                lp.body.insert(0, st_)
+                del lst[i[2]]
+            else:
+                lp = lst[i[2]]
+                st_ = lp.body.pop(0)
+                lst.insert(i[2], st_)
+            ast.fix_missing_locations(m)
+            try:
+                compile(ast.Module(body=[m], type_ignores=[]), "<m>", "exec")
+            except Exception:
+                continue
+            yield f"{kind}@{getattr(st_, 'lineno', '?')}", m
+            continue
         if kind == "swap":
             m = copy.deepcopy(fn)
             owner = list(ast.walk(m))[i[0]]
